@@ -88,7 +88,12 @@ func genFormat(rt *rapid.T) Case {
 		case 2:
 			c.Args = append(c.Args, "e:"+rapid.SampledFrom([]string{"0.0001d0", "0.5d0", "1.0d10", "1.0d-10", "123.456d0", "-0.001d0", "1.0d21", "1.0e-7", "0.0d0", "99.995d0", "1/3", "-1.5s0", "9.999d0"}).Draw(rt, "float"))
 		case 0:
-			c.Args = append(c.Args, "i:"+strconv.Itoa(rapid.SampledFrom([]int{0, 1, 2, 5, 12, 1000, -7, 10000}).Draw(rt, "int")))
+			if rapid.IntRange(0, 3).Draw(rt, "bigint") == 0 && !hasV(sb.String()) {
+				// around the limits of the spelled and roman renderings (10^66, 3999) and of the machine word
+				c.Args = append(c.Args, "e:"+rapid.SampledFrom(fmtBigInts).Draw(rt, "big"))
+			} else {
+				c.Args = append(c.Args, "i:"+strconv.Itoa(rapid.SampledFrom([]int{0, 1, 2, 5, 12, 1000, -7, 10000, 3999, 4000, 4999, 5000}).Draw(rt, "int")))
+			}
 		case 1:
 			c.Args = append(c.Args, "s:"+rapid.SampledFrom([]string{"~a", "x", "~", "~a~a", "~10000a", ""}).Draw(rt, "str"))
 		default:
@@ -123,6 +128,24 @@ func runFormat(c Case) *h.Result {
 		res.NonTrivial = paramDirective(strings.TrimPrefix(c.Args[1], "s:"))
 	}
 	return res
+}
+
+var fmtBigInts = func() (out []string) {
+	for _, e := range []int{18, 19, 20, 63, 64, 65, 66, 67, 68, 69, 70, 100} {
+		out = append(out, "(expt 10 "+strconv.Itoa(e)+")", "(1- (expt 10 "+strconv.Itoa(e)+"))", "(- (expt 10 "+strconv.Itoa(e)+"))", "(+ 12345 (expt 10 "+strconv.Itoa(e)+"))")
+	}
+	return
+}()
+
+// hasV: does the control string take a prefix parameter from the arguments? Then no huge integer is among the
+// arguments: a width of 10^18 allocates that much in any implementation, which is not what the property forbids.
+func hasV(ctl string) bool {
+	for i := 0; i+1 < len(ctl); i++ {
+		if (ctl[i] == '~' || ctl[i] == ',') && (ctl[i+1] == 'v' || ctl[i+1] == 'V') {
+			return true
+		}
+	}
+	return false
 }
 
 var fmtPairP = h.Prop[Case]{Name: "format-pair-grid", Run: runCall}
@@ -180,6 +203,22 @@ func testFormatGrid(t *testing.T) {
 		n += len(cs)
 		units = append(units, cs)
 	}
+	// every directive form alone on every integer around the limits
+	var big []Case
+	for i, d := range ds {
+		if h.Thorough() && i%h.C.NShards != h.C.Shard {
+			continue
+		}
+		for _, b := range fmtBigInts {
+			args := []string{"nil", "s:" + d, "e:" + b, "fix1"}
+			if hasV(d) {
+				args = []string{"nil", "s:" + d, "fix2", "e:" + b, "fix1"} // the v parameter stays small, the argument is large
+			}
+			big = append(big, Case{Fn: "common-lisp:format", Mode: "q", Args: args})
+		}
+	}
+	n += len(big)
+	units = append(units, big)
 	h.Note("format-pair-grid: %d directive forms, ordered pairs x %d argument lists; %d calls in this run (quick: a quarter of the pairs chosen by the seed)", len(ds), len(argLists), n)
 	if drive(t, fmtPairP, units, workersFor()) && h.Thorough() {
 		h.SetExhaustive(fmtPairP.Name)
